@@ -635,6 +635,203 @@ def compat_stage(ctx):
                       {"case": {"purity_order": b["order"]}, "detail": b, "finding_key": "compat-helper-stateful"})
 
 
+# ------------------------------------------------------------------------------------------
+# version contract on the objects the backends construct internally (long sequences)
+# ------------------------------------------------------------------------------------------
+def eval_times(kind: str):
+    import numpy as np
+    name, n = kind.split(":")
+    n = int(n)
+    if name == "linspace":
+        return [float(x) for x in np.linspace(0, 1, n)]
+    if name == "ratio":       # i/(n-1) computed in python
+        return [i / (n - 1) for i in range(n)]
+    if name == "arange":      # accumulating step, clipped to 1
+        return sorted({min(1.0, float(x)) for x in np.arange(0, 1 + 0.5 / (n - 1), 1 / (n - 1))})
+    if name == "times":       # i*step with a decimal step
+        return sorted({min(1.0, i * round(1 / (n - 1), 6)) for i in range(n)})
+    raise ValueError(kind)
+
+
+def long_sequence(T: int, n_atoms=2):
+    from pulser import Sequence, Register, Pulse
+    from pulser.devices import MockDevice
+
+    reg = Register.from_coordinates([(8.0 * i, 0.0) for i in range(n_atoms)], prefix="q")
+    seq = Sequence(reg, MockDevice)
+    seq.declare_channel("ch", "rydberg_global")
+    seq.add(Pulse.ConstantPulse(T, 1.0, 0.0, 0.0), "ch")
+    return seq
+
+
+def contract_case(case):
+    """Build the target-time grid the adapter produces for the case and construct the internal
+    observables of both backends on it exactly as the backends do; also call pulser's own validator."""
+    import warnings
+    from pulser.backend import Occupation
+    from pulser.backend.observable import Observable
+    from emu_base import PulserData
+    import emu_mps
+    import emu_sv
+    from emu_mps.mps_backend_impl import Statistics as MpsStatistics
+    from emu_sv.sv_backend_impl import Statistics as SvStatistics
+
+    out = []
+    with warnings.catch_warnings():
+        warnings.simplefilter("ignore")
+        seq = long_sequence(case["T"])
+        ev = eval_times(case["evals"])
+        for name, Cfg, Stat in (("emu_mps", emu_mps.MPSConfig, MpsStatistics), ("emu_sv", emu_sv.SVConfig, SvStatistics)):
+            cfg = Cfg(observables=[Occupation(evaluation_times=ev)], dt=case["dt"], log_level=logging.CRITICAL)
+            try:
+                tt = PulserData(sequence=seq, config=cfg, dt=cfg.dt).target_times
+            except Exception as ex:
+                out.append((name, "PulserData", f"{type(ex).__name__}: {str(ex)[:200]}"))
+                continue
+            rel = [t / tt[-1] for t in tt]
+            try:  # emu_*/..._backend_impl.py: Statistics(evaluation_times=[t / T ...], data=[], timestep_count=...)
+                Stat(evaluation_times=rel, data=[], timestep_count=len(tt) - 1)
+            except Exception as ex:
+                gaps = sorted((b - a, a) for a, b in zip(tt, tt[1:]))[:2]
+                out.append((name, "Statistics", f"{type(ex).__name__}: {str(ex)[:120]} ... closest target times "
+                                                f"(gap ns, at ns): {gaps}"))
+            validate = getattr(Observable, "_validate_eval_times", None)
+            if validate is not None:
+                try:
+                    validate(rel)
+                except Exception as ex:
+                    out.append((name, "Observable._validate_eval_times", f"{type(ex).__name__}: {str(ex)[:120]}"))
+    c33._restore_logging()
+    return out
+
+
+def contract_cases(ctx):
+    cases = [c for c in corpus_cases() if "contract" in c.get("kind", "")]
+    Ts = [3000, 4100, 6000, 10000, 16000, 20000, 50000] if ctx.thorough() else [3000, 10000, 20000, 50000]
+    kinds = ["linspace:11", "linspace:101", "linspace:51", "ratio:101", "arange:101", "times:101", "linspace:1001"]
+    for T in Ts:
+        for dt in (10, 100):
+            for k in (kinds if ctx.thorough() else kinds[:4]):
+                cases.append({"kind": "contract", "T": T, "dt": dt, "evals": k})
+    return cases
+
+
+def contract_stage(ctx):
+    hist = {"ok": 0, "rejected": 0}
+    for case in contract_cases(ctx):
+        bad = contract_case(case)
+        ctx.count_case(case, True)
+        hist["rejected" if bad else "ok"] += 1
+        for pkg, what, why in bad:
+            ctx.violation(f"under pulser-core {importlib.metadata.version(DIST)}: sequence of {case['T']} ns, dt={case['dt']}, "
+                          f"evaluation_times={case['evals']}: the internal {what} of {pkg} on the adapter's target-time "
+                          f"grid is rejected by pulser: {why}",
+                          {"case": case, "package": pkg, "what": what, "error": why,
+                           "finding_key": "internal-observable-rejected-by-pulser"})
+    ctx.extra["internal_observable_contract"] = hist
+
+
+def long_smoke_case(case):
+    """Both backends end to end on a long sequence with every exported observable on linspace-type times."""
+    import warnings
+    from pulser.backend import Results
+    from pulser.backend.observable import Observable
+    import emu_mps
+    import emu_sv
+
+    out = []
+    with warnings.catch_warnings():
+        warnings.simplefilter("ignore")
+        seq = long_sequence(case["T"])
+        ev = eval_times(case["evals"])
+        for pkg in (emu_mps, emu_sv):
+            what = f"run {pkg.__name__} on {case['T']} ns, dt={case['dt']}, evaluation_times={case['evals']}"
+            try:
+                obs = []
+                for n in sorted(getattr(pkg, "__all__", dir(pkg))):
+                    cls = getattr(pkg, n, None)
+                    if inspect.isclass(cls) and issubclass(cls, Observable) and cls is not Observable:
+                        if n == "Expectation":
+                            Op = pkg.MPO if pkg is emu_mps else pkg.DenseOperator
+                            a = (Op.from_operator_repr(eigenstates=("r", "g"), n_qudits=2,
+                                                       operations=[(1.0, [({"rr": 1.0}, [0])])]),)
+                        elif n == "Fidelity":
+                            St = pkg.MPS if pkg is emu_mps else pkg.StateVector
+                            a = (St.from_state_amplitudes(eigenstates=("r", "g"), amplitudes={"rr": 1.0}),)
+                        elif n == "EntanglementEntropy":
+                            a = (0,)
+                        else:
+                            a = ()
+                        obs.append(cls(*a, evaluation_times=ev))
+                kw = dict(observables=obs, dt=case["dt"], log_level=logging.CRITICAL)
+                if pkg is emu_mps:
+                    r = pkg.MPSBackend(seq, config=pkg.MPSConfig(optimize_qubit_ordering=False, **kw)).run()
+                else:
+                    r = pkg.SVBackend(seq, config=pkg.SVConfig(**kw)).run()
+                missing = [o.tag for o in obs if o.tag not in r.get_result_tags()]
+                short = [o.tag for o in obs if o.tag not in missing and len(r.get_result_times(o)) != len(ev)]
+                if not isinstance(r, Results) or missing or short:
+                    out.append((what, f"missing tags {missing}; wrong number of recorded times for {short}"))
+            except Exception as ex:
+                out.append((what, f"{type(ex).__name__}: {str(ex)[:200]}"))
+    c33._restore_logging()
+    return out
+
+
+def slm_smoke_case(case):
+    """pulser >= 1.9 packs the trajectory interaction matrix as (1, N, N); the SLM masking must still index
+    atoms: both backends run a 3-atom sequence with an SLM mask end to end."""
+    import warnings
+    from pulser import Sequence, Register, Pulse
+    from pulser.devices import MockDevice
+    from pulser.backend import Occupation, Results
+    import emu_mps
+    import emu_sv
+
+    out = []
+    with warnings.catch_warnings():
+        warnings.simplefilter("ignore")
+        reg = Register.from_coordinates([(0.0, 0.0), (7.0, 0.0), (14.0, 0.0)], prefix="q")
+        seq = Sequence(reg, MockDevice)
+        seq.declare_channel("ch", "rydberg_global")
+        seq.config_slm_mask(case["mask"])
+        seq.add(Pulse.ConstantPulse(100, 6.0, 0.0, 0.0), "ch")
+        seq.add(Pulse.ConstantPulse(100, 3.0, 1.0, 0.0), "ch")
+        for pkg in (emu_mps, emu_sv):
+            what = f"run {pkg.__name__} with SLM mask {case['mask']}"
+            try:
+                kw = dict(observables=[Occupation(evaluation_times=[0.5, 1.0])], dt=10, log_level=logging.CRITICAL)
+                if pkg is emu_mps:
+                    r = pkg.MPSBackend(seq, config=pkg.MPSConfig(optimize_qubit_ordering=False, **kw)).run()
+                else:
+                    r = pkg.SVBackend(seq, config=pkg.SVConfig(**kw)).run()
+                if not isinstance(r, Results) or len(r.occupation[-1]) != 3:
+                    out.append((what, "no 3-atom occupation in the results"))
+            except Exception as ex:
+                out.append((what, f"{type(ex).__name__}: {str(ex)[:200]}"))
+    c33._restore_logging()
+    return out
+
+
+def long_smoke_stage(ctx):
+    for case in ({"kind": "slm-smoke", "mask": ["q2"]}, {"kind": "slm-smoke", "mask": ["q0", "q1"]}):
+        ctx.count_case(case, True)
+        for what, why in slm_smoke_case(case):
+            ctx.violation(f"under pulser-core {importlib.metadata.version(DIST)}: {what} failed: {why}",
+                          {"case": case, "error": why, "finding_key": "slm-mask-run-fails"})
+    cases = [{"kind": "long-smoke", "T": 3000, "dt": 10, "evals": "linspace:101"},
+             {"kind": "long-smoke", "T": 10000, "dt": 100, "evals": "linspace:101"}]
+    if ctx.thorough():
+        cases += [{"kind": "long-smoke", "T": 10000, "dt": 10, "evals": "linspace:101"},
+                  {"kind": "long-smoke", "T": 50000, "dt": 100, "evals": "linspace:51"},
+                  {"kind": "long-smoke", "T": 20000, "dt": 100, "evals": "linspace:11"}]
+    for case in cases:
+        ctx.count_case(case, True)
+        for what, why in long_smoke_case(case):
+            ctx.violation(f"under pulser-core {importlib.metadata.version(DIST)}: {what} failed: {why}",
+                          {"case": case, "error": why, "finding_key": "long-sequence-run-fails"})
+
+
 def corpus_cases():
     p = common.VERIF / "corpus" / "C31.json"
     return json.loads(p.read_text()) if p.exists() else []
@@ -694,6 +891,9 @@ def run(ctx):
             ctx.violation(f"under pulser-core {importlib.metadata.version(DIST)} (admitted by the declared "
                           f"specifier): {what} failed: {why}",
                           {"case": {"smoke": what}, "error": why, "finding_key": "pulser-api-mismatch"})
+    # internal observables of the backends obey the installed pulser's validators; long sequences run
+    contract_stage(ctx)
+    long_smoke_stage(ctx)
     # compat shims must be pure; order- and trajectory-aware smoke runs in fresh processes
     compat_stage(ctx)
     from concurrent.futures import ThreadPoolExecutor
@@ -724,7 +924,7 @@ def run(ctx):
                 shapes.append((s, npos, kws, want))
             for c in calls:
                 shapes.append((c["sig"], c["npos"], c["kws"], real_bind_ok(c["sig"], c["npos"], c["kws"])))
-            corp = corpus_cases()
+            corp = [c for c in corpus_cases() if "callee" in c]
             for cc in corp:  # regression witnesses (e.g. the pre-fix F-01 call shape)
                 obj = _callee_obj(cc["callee"])
                 s = sig_of(obj, drop_first=cc.get("drop_first", False))
@@ -773,6 +973,23 @@ def replay(ctx, path):
     rp = json.loads(open(path).read())
     print("replay:", rp.get("case"))
     case = rp.get("case") or {}
+    if case.get("kind", "").startswith("contract") or case.get("kind") == "corpus-contract":
+        for pkg, what, why in contract_case(case):
+            print(f"FAIL {pkg} {what}: {why}")
+            ctx.violation(f"internal {what} of {pkg} rejected by pulser: {why}",
+                          {"case": case, "error": why, "finding_key": "internal-observable-rejected-by-pulser"})
+        return
+    if case.get("kind") == "slm-smoke":
+        for what, why in slm_smoke_case(case):
+            print(f"FAIL {what}: {why}")
+            ctx.violation(f"{what} failed: {why}", {"case": case, "error": why, "finding_key": "slm-mask-run-fails"})
+        return
+    if case.get("kind") == "long-smoke":
+        for what, why in long_smoke_case(case):
+            print(f"FAIL {what}: {why}")
+            ctx.violation(f"{what} failed: {why}", {"case": case, "error": why,
+                                                     "finding_key": "long-sequence-run-fails"})
+        return
     if "scenario" in case:
         res = run_scenario(case["scenario"])
         for st in res["steps"]:
